@@ -62,6 +62,12 @@ impl Recv {
                 debug!(end, final_offset, "final size error");
                 return Err(TransportError::FINAL_SIZE_ERROR(""));
             }
+        } else if frame.fin && end < self.end {
+            // The final size cannot be lower than the data already received (RFC 9000 4.5)
+            debug!(end, self.end, "final size below received data");
+            return Err(TransportError::FINAL_SIZE_ERROR(
+                "lower than high water mark",
+            ));
         }
 
         let new_bytes = self.credit_consumed_by(end, received, max_data)?;
